@@ -17,7 +17,7 @@ func iterMethodTerm(c *Ctx, fn *ssa.Function, itType *types.Named, name string, 
 	if m == nil {
 		return ""
 	}
-	st := &pstate{b: &gcBuilder{p: c.p, e: c.E(), fn: fn, cutIdx: map[*ssa.BasicBlock]int{}, out: &GCNF{Fn: fn}}, env: map[ssa.Value]*Term{}, onPath: map[*ssa.BasicBlock]bool{}, inl: true}
+	st := &pstate{b: &gcBuilder{p: c.p, e: c.E(), fn: fn, cutIdx: map[string]int{}, out: &GCNF{Fn: fn}}, env: map[ssa.Value]*Term{}, onPath: map[string]bool{}, inl: true}
 	if t, ok := st.inline(m, []*Term{IT}); ok {
 		return noEpoch(t)
 	}
